@@ -291,6 +291,48 @@ func (r *Runner) Do(i int) (*Mismatch, error) {
 				}
 				delete(overlay, string(k))
 				deleted[string(k)] = true
+			case "last":
+				// SeekToLast on the transaction's full iterator: the greatest live key
+				// of (committed state + own writes), with the value the transaction
+				// itself would Get. A deletion marker may surface instead (consumers
+				// skip it and there is no backward step), but never a smaller live key
+				// and never a value other than the newest one.
+				var wantK string
+				var wantV []byte
+				have := false
+				view := r.Model.Clone()
+				for kk, vv := range overlay {
+					view[kk] = vv
+				}
+				for kk := range deleted {
+					delete(view, kk)
+				}
+				if ks := view.SortedKeys(); len(ks) > 0 {
+					wantK, wantV, have = ks[len(ks)-1], view[ks[len(ks)-1]], true
+				}
+				it := tx.NewIterator()
+				it.SeekToLast()
+				switch {
+				case !it.Valid():
+					if have {
+						_ = tx.Rollback()
+						return &Mismatch{Step: i, Kind: "ryw", Key: o.K, Msg: fmt.Sprintf("tx SeekToLast: invalid, the greatest live key is %s", brief([]byte(wantK))), Ctx: "tx-last"}, nil
+					}
+				case it.IsTombstone():
+					if have && bytes.Compare(it.Key(), []byte(wantK)) < 0 {
+						_ = tx.Rollback()
+						return &Mismatch{Step: i, Kind: "ryw", Key: o.K, Msg: fmt.Sprintf("tx SeekToLast: deletion marker %s below the greatest live key %s", brief(it.Key()), brief([]byte(wantK))), Ctx: "tx-last"}, nil
+					}
+				default:
+					gv := it.Value()
+					if gv == nil {
+						gv = []byte{}
+					}
+					if !have || !bytes.Equal(it.Key(), []byte(wantK)) || !bytes.Equal(gv, wantV) {
+						_ = tx.Rollback()
+						return &Mismatch{Step: i, Kind: "ryw", Key: o.K, Msg: fmt.Sprintf("tx SeekToLast: live entry %s = %s, want %s = %s (found=%v)", brief(it.Key()), brief(gv), brief([]byte(wantK)), brief(wantV), have), Ctx: "tx-last"}, nil
+					}
+				}
 			case "get":
 				got, err := tx.Get(k)
 				if err != nil && !IsNotFound(err) {
